@@ -13,6 +13,11 @@ pub fn decode(mut src: &[u8]) -> io::Result<Vec<u8>> {
 
     let mut dst = vec![0; uncompressed_size];
 
+    // An empty input has no symbols and, thus, an empty frequency table, which cannot be read.
+    if dst.is_empty() {
+        return Ok(dst);
+    }
+
     match order {
         Order::Zero => order_0::decode(&mut src, &mut dst)?,
         Order::One => order_1::decode(&mut src, &mut dst)?,
